@@ -293,10 +293,14 @@ class EnvBoundaryMPS():
                 for nz, (op1, op2) in ops.items():
                     tm[nx].set_operator_(op1)
                     tm[nx + 1].set_operator_(op2)
+                    tm[nx].add_charge_swaps_(op1.n, axes=['k4', 'b3'])  # fermionic string between the two sites,
+                    tm[nx + 1].add_charge_swaps_(op1.n, axes='k1')  # as in measure_2site / measure_line
                     env.update_env_(nx + 1, to='first')
                     env.update_env_(nx, to='first')
                     tm[nx].del_operator_()
                     tm[nx + 1].del_operator_()
+                    tm[nx].del_charge_swaps_()
+                    tm[nx + 1].del_charge_swaps_()
                     out[(s0, s1) + nz] = env.measure(bd=(nx - 1, nx)) / norm_env
 
         for nx, bond_ops in OPh.items():
@@ -311,10 +315,14 @@ class EnvBoundaryMPS():
                 for nz, (op1, op2) in ops.items():
                     tm[ny].set_operator_(op1)
                     tm[ny + 1].set_operator_(op2)
+                    tm[ny].add_charge_swaps_(op1.n, axes=['k2', 'k4'])  # fermionic string between the two sites,
+                    tm[ny + 1].add_charge_swaps_(op1.n, axes='b0')  # as in measure_2site / measure_line
                     env.update_env_(ny + 1, to='first')
                     env.update_env_(ny, to='first')
                     tm[ny].del_operator_()
                     tm[ny + 1].del_operator_()
+                    tm[ny].del_charge_swaps_()
+                    tm[ny + 1].del_charge_swaps_()
                     out[(s0, s1) + nz] = env.measure(bd=(ny - 1, ny)) / norm_env
 
         return out
